@@ -12,7 +12,7 @@
   `evaluate` is the fused loop; `evaluateNow` is `CompiledPredicate::evaluate` of the current tree, which since fix e4c7c04
   (Kleene AND/OR in the interpreter) hands batches with NULLs to the interpreter when the program contains AND/OR.
 
-  Deviation switch `compiledIeeeCmp` (finding C06-F1): `CmpF64` compares with Rust's IEEE operators (`Cmp::apply` on f64 =
+  Deviation switch `compiledIeeeCmp` (finding C06-F1, fixed by 7400978): before the fix `CmpF64` compared with Rust's IEEE operators (`Cmp::apply` on f64 =
   `PartialOrd`), the interpreter with Arrow's total order. With the switch off the f64 comparison is the total-order one.
 
   Not modelled: the `Alias` and no-op `Cast(Float64)` arms (transparent wrappers, not generated), the name-based column
@@ -29,7 +29,10 @@ structure Dev where
   compiledIeeeCmp : Bool := false
 deriving DecidableEq, Repr, Inhabited
 def Dev.none : Dev := { compiledIeeeCmp := false }
-def Dev.current : Dev := { compiledIeeeCmp := true }
+/-- the tree before fix 7400978 (IEEE operators in the f64 comparison shapes): kept for the negation witnesses -/
+def Dev.ieee : Dev := { compiledIeeeCmp := true }
+/-- the current tree: since fix 7400978 the f64 shapes compare `total_order_key` values -/
+def Dev.current : Dev := { compiledIeeeCmp := false }
 
 /-- arrow column types the compiler distinguishes -/
 inductive CTy | f64 | i64 | i32 | date32 | other
